@@ -1,6 +1,7 @@
 import HapModel.Drv.Basic
 import HapModel.Model.HapFormat
 import HapModel.Model.HapHeader
+import HapModel.Model.HapVersion
 namespace Drv
 open Lean HapFormat
 
@@ -26,5 +27,17 @@ def hHapHeader (j : Json) : R Json := do
   let c : Classes := ⟨fun t => ((match t with | .H => h | .V => v | .R => r).getD []).map (fun n => (n, "", ""))⟩
   pure <| jObj [("reported", Json.bool (reported c lines)),
                 ("missing", jArr ((missing c lines).map (fun p => jArr [jStr p.1.sym, jStr p.2])))]
+
+/-- {"op":"hapVersion","observed":s,"expected":s} → "unsupported" | "outdated" | "patched" | "current" | null (not a
+    three-number version string) -/
+def hHapVersion (j : Json) : R Json := do
+  let o ← strF j "observed"
+  let e ← strF j "expected"
+  pure <| jObj [("verdict", match HapVersion.checkStr o e with
+    | none => Json.null
+    | some .unsupported => jStr "unsupported"
+    | some .outdated => jStr "outdated"
+    | some .patched => jStr "patched"
+    | some .current => jStr "current")]
 
 end Drv
